@@ -36,7 +36,7 @@ def plan(tier):
 
 def required(tier):
     return ["executions", "window_reached_executions", "forced_window_executions", "random_plan_executions",
-            "timeouts_with_results_in_flight", "multi_group_executions", "process_probe_events", "baseline_ok", "big_payload_cases", "round_size_cases", "pass_through_record_cases"]
+            "timeouts_with_results_in_flight", "multi_group_executions", "process_probe_events", "baseline_ok", "big_payload_cases", "round_size_cases", "pass_through_record_cases", "cpu_limited_executions"]
 
 
 # the trace-specification probe is anchored on a source line of realign_gaf; if a refactoring removed the
@@ -142,7 +142,14 @@ def run_case(ctx, rng, index, casedir):
         ngroups = -(-(-(-nrec // batch)) // cores)
         scale = rng.choice([0.02, 0.05, 0.1])
         planned = {"cores": cores, "timeout_scale": scale, "max_groups": ngroups + 2}
-        if (k == 0 or rng.random() < 0.4) and not big_payload and not sized:
+        if k == nexec - 1 and rng.random() < 0.2:
+            # a small host: realign clamps the requested cores with the CPU count it sees
+            planned["cpu_count"] = rng.choice([1, 2, 3])
+            cores = rng.choice([2, 3, 4, 6])
+            planned["cores"] = cores
+            kind = "cpu_limited"
+            sit["cpu_limited_executions"] += 1
+        elif (k == 0 or rng.random() < 0.4) and not big_payload and not sized:
             planned["forced"] = {"groups": "all", "hold": rng.choice([1, 1, 2, 3])}
             kind = "forced"
             sit["forced_window_executions"] += 1
